@@ -119,6 +119,14 @@ func checkAPI(c APICase) error {
 		{"ByColumn().Text()", func() *tabula.Extractor { return tabula.Open(path).ByColumn() }},
 		{"JoinParagraphs().Text()", func() *tabula.Extractor { return tabula.Open(path).JoinParagraphs() }},
 		{"PreserveLayout().Text()", func() *tabula.Extractor { return tabula.Open(path).PreserveLayout() }},
+		// the modes are independent switches: every combination is a text mode too, in either order of the calls
+		{"JoinParagraphs().ByColumn().Text()", func() *tabula.Extractor { return tabula.Open(path).JoinParagraphs().ByColumn() }},
+		{"ByColumn().JoinParagraphs().Text()", func() *tabula.Extractor { return tabula.Open(path).ByColumn().JoinParagraphs() }},
+		{"ByColumn().PreserveLayout().Text()", func() *tabula.Extractor { return tabula.Open(path).ByColumn().PreserveLayout() }},
+		{"PreserveLayout().JoinParagraphs().Text()", func() *tabula.Extractor { return tabula.Open(path).PreserveLayout().JoinParagraphs() }},
+		{"ByColumn().JoinParagraphs().PreserveLayout().Text()", func() *tabula.Extractor {
+			return tabula.Open(path).ByColumn().JoinParagraphs().PreserveLayout()
+		}},
 	} {
 		t, e := one(m.ext().Text())
 		if e := judge(m.name, t, e); e != nil {
